@@ -1,5 +1,6 @@
 import RP.Driver.Common
 import RP.Model.Regret
+import RP.Driver.F32Text
 /-! line-protocol driver for C09.
 
 `policy32 <player> <t> <bits>…`  `policyVector` over `Float32` (the stored regrets as f32 bit
@@ -10,45 +11,6 @@ import RP.Model.Regret
 `clamp <bits>`                   clamp + assertions of `regret_vector` over `Float32`
 `walker <t>`                     `Profile::walker` -/
 open RP.Driver RP.Arith RP.Regret
-
-/-- exact decimal text of a binary32 value -/
-def f32ToDec (x : Float32) : String :=
-  if x.isNaN then "NaN" else
-  let b := x.toBits.toNat
-  let neg := decide (b ≥ 2 ^ 31)
-  let e : Nat := (b / 2 ^ 23) % 256
-  let m : Nat := b % 2 ^ 23
-  let sign := if neg then "-" else ""
-  if e = 255 then sign ++ "inf" else
-  let mant := if e = 0 then m else m + 2 ^ 23
-  let ex : Int := if e = 0 then -149 else (e : Int) - 150
-  if ex ≥ 0 then sign ++ toString (mant * 2 ^ ex.toNat)
-  else sign ++ toString (mant * 5 ^ (-ex).toNat) ++ "e-" ++ toString (-ex).toNat
-
-/-- exact rational value of a finite binary32 bit pattern -/
-def f32BitsToRat (b : Nat) : Option Rat :=
-  let neg := decide (b ≥ 2 ^ 31)
-  let e : Nat := (b / 2 ^ 23) % 256
-  let m : Nat := b % 2 ^ 23
-  if b ≥ 2 ^ 32 ∨ e = 255 then none else
-  let mant : Int := if e = 0 then m else m + 2 ^ 23
-  let mant := if neg then -mant else mant
-  let ex : Int := if e = 0 then -149 else (e : Int) - 150
-  some (if ex ≥ 0 then (mant : Rat) * ((2 ^ ex.toNat : Nat) : Rat) else mkRat mant (2 ^ (-ex).toNat))
-
-def digits (n : Nat) : Nat := (toString n).length
-
-/-- a rational to 17 significant decimal digits (truncated) -/
-def ratToDec (q : Rat) : String :=
-  if q.num = 0 then "0" else
-  let sign := if q.num < 0 then "-" else ""
-  let n := q.num.natAbs
-  let d := q.den
-  let k : Int := 18 + (digits d : Int) - (digits n : Int)
-  let m := if k ≥ 0 then n * 10 ^ k.toNat / d else n / (d * 10 ^ (-k).toNat)
-  sign ++ toString m ++ "e" ++ toString (-k)
-
-def natsOf (ws : List String) : Option (List Nat) := ws.mapM String.toNat?
 
 def withKeys {α : Type} (xs : List α) : List (Nat × α) := xs.zipIdx.map fun (x, i) => (i, x)
 
